@@ -11,23 +11,23 @@
 
 using namespace vf;
 
-struct Case { SSong song; int play_first_permille = 0; std::vector<int> targets; /* >=0: midpoint index, -1: negative, -2: beyond the end */ };
-static std::string ser(const Case &c) { std::ostringstream o; o << "seek " << c.play_first_permille << " " << c.targets.size(); for(int t : c.targets) o << " " << t; o << "\n" << smf_ser(c.song); return o.str(); }
-static Case deser(const std::string &s) { Case c; std::istringstream in(s); std::string w; size_t n = 0; in >> w >> c.play_first_permille >> n; for(size_t i = 0; i < n; i++) { int t; in >> t; c.targets.push_back(t); } c.song = smf_deser(in); return c; }
+struct Case { SSong song; int play_first_permille = 0; std::vector<int> targets; /* >=0: midpoint index, -1: negative, -2: beyond the end */ int loop = 0; /* looping enabled (targets stay before the loop end) */ };
+static std::string ser(const Case &c) { std::ostringstream o; if(c.loop) o << "seekl " << c.loop << " "; else o << "seek "; o << c.play_first_permille << " " << c.targets.size(); for(int t : c.targets) o << " " << t; o << "\n" << smf_ser(c.song); return o.str(); }
+static Case deser(const std::string &s) { Case c; std::istringstream in(s); std::string w; size_t n = 0; in >> w; if(w == "seekl") in >> c.loop; in >> c.play_first_permille >> n; for(size_t i = 0; i < n; i++) { int t; in >> t; c.targets.push_back(t); } c.song = smf_deser(in); return c; }
 
 struct Ev { int type = 0, sub = 0, ch = 0; std::vector<uint8_t> data; double tell = 0; };
 static std::string show(const Ev &e) { return fmt("type %02X sub %02X ch %d data %s @%.6f", e.type, e.sub, e.ch, hex(e.data.data(), e.data.size()).c_str(), e.tell); }
 struct Rec { std::vector<Ev> got; OPN2_MIDIPlayer *dev = nullptr; bool on = false; };
 static void raw_hook(void *ud, OPN2_UInt8 type, OPN2_UInt8 subtype, OPN2_UInt8 channel, const OPN2_UInt8 *data, size_t len) {
-    Rec *r = (Rec *)ud; if(!r->on) return; Ev e; e.type = type; e.sub = subtype; e.ch = channel; if(len) e.data.assign(data, data + len); e.tell = opn2_positionTell(r->dev); r->got.push_back(e);
+    Rec *r = (Rec *)ud; if(!r->on || r->got.size() > 300000) return; Ev e; e.type = type; e.sub = subtype; e.ch = channel; if(len) e.data.assign(data, data + len); e.tell = opn2_positionTell(r->dev); r->got.push_back(e);
 }
 
 static const double G = 1e-6;
 struct Player {
     Inst I; Rec rec; double d = 0;
-    void start(const std::string &img) {
+    void start(const std::string &img, int loop = 0) {
         I.open(8000); opn2_switchEmulator(I.dev, EMU_NP2); opn2_setNumChips(I.dev, 2); install_default_banks(I.dev, 200, 20);
-        rec.dev = I.dev; opn2_setRawEventHook(I.dev, raw_hook, &rec); opn2_setLoopEnabled(I.dev, 0);
+        rec.dev = I.dev; opn2_setRawEventHook(I.dev, raw_hook, &rec); opn2_setLoopEnabled(I.dev, loop);
         VCHECK(opn2_openData(I.dev, img.data(), (unsigned long)img.size()) == 0, "generated SMF rejected: %s", opn2_errorInfo(I.dev));
     }
     // tick until the position reaches `t` exactly (never beyond) or the song ends
@@ -41,6 +41,8 @@ struct Player {
             VCHECK(++guard < 2000000, "ticking does not make progress");
         }
     }
+    // looping songs never end: play on for `span` seconds of song time (across the loop wrap)
+    void tick_for(double span) { size_t guard = 0; double acc = 0; while(acc < span && !opn2_atEnd(I.dev) && rec.got.size() <= 300000) { double step = d > G ? d : G; if(step > span - acc) step = span - acc; if(step < G) step = G; d = opn2_tickEvents(I.dev, step, G); acc += step; VCHECK(++guard < 4000000, "ticking does not make progress"); } }
     void tick_to_end() { size_t guard = 0; while(!opn2_atEnd(I.dev)) { double step = d > G ? d : G; d = opn2_tickEvents(I.dev, step, G); VCHECK(++guard < 2000000, "ticking does not reach the end"); } }
 };
 
@@ -53,7 +55,7 @@ static std::vector<ChanState> chan_states(const Inst &I) {
     return v;
 }
 
-struct Info { bool interior = false, notes_at_seek = false, backward = false; unsigned seeks = 0; };
+struct Info { bool interior = false, notes_at_seek = false, backward = false, loop = false; unsigned seeks = 0; };
 
 static void run(const Case &c, Info &info) {
     opnmidi_verif_tap = NULL; opnmidi_verif_frames = NULL;
@@ -75,10 +77,13 @@ static void run(const Case &c, Info &info) {
         }
     }
     std::vector<double> times; for(uint64_t tk : tickset) times.push_back(tm.seconds(tk));
-    std::sort(times.begin(), times.end()); times.erase(std::unique(times.begin(), times.end(), [](double a, double b) { return std::fabs(a - b) <= 1e-7 * (1 + a); }), times.end());
-    Player A, B; A.start(img); B.start(img);
+    std::sort(times.begin(), times.end()); times.erase(std::unique(times.begin(), times.end()), times.end()); // exact: a target must keep its distance from EVERY event time (fast tempos put events microseconds apart)
+    Player A, B; A.start(img, c.loop); B.start(img, c.loop);
+    // with looping on, targets stay before the loop end (explicit marker, or the end of the song)
+    double loop_end = c.loop ? opn2_loopEndTime(A.I.dev) : -1.0;
     double len = opn2_totalTimeLength(A.I.dev);
     double t0 = len * c.play_first_permille / 1000.0;
+    if(c.loop) { double lim = (loop_end >= 0 ? loop_end : (times.empty() ? 0.0 : times.back())) * 0.95; if(t0 > lim) t0 = lim; } // a looping song wraps before it reaches its length
     A.tick_to(t0); B.tick_to(t0);
     double cur = t0;
     for(size_t si = 0; si < c.targets.size(); si++) {
@@ -96,7 +101,8 @@ static void run(const Case &c, Info &info) {
             opn2_positionSeek(A.I.dev, len + 1.0 + (double)si);
             VCHECK(opn2_positionTell(A.I.dev) == 0.0, "seeking beyond the end left the position at %.6f instead of 0", opn2_positionTell(A.I.dev));
             VCHECK(!opn2_atEnd(A.I.dev), "seeking beyond the end left the song ended");
-            opn2_positionRewind(B.I.dev); A.d = 0; B.d = 0; cur = -1; info.seeks++; // back at the start: every event of the file is delivered again
+            if(c.loop) B.start(img, c.loop); else opn2_positionRewind(B.I.dev);
+            A.d = 0; B.d = 0; cur = -1; info.seeks++; // back at the start: every event of the file is delivered again
             continue;
         }
         if(times.size() < 2) continue;
@@ -104,12 +110,15 @@ static void run(const Case &c, Info &info) {
         double t = (times[mi] + times[mi + 1]) / 2;
         const double margin = 1.0 / 8000.0; // the seek works with sample-period granularity: an event within half a period of the target counts as 'at' it
         if(!(t > times[mi] + margin && t < times[mi + 1] - margin)) continue; // too close to an event time to be 'between event times'
+        if(c.loop && loop_end >= 0 && t >= loop_end - margin) continue;          // outside the quantifier: target not before the loop end
         size_t sounding = 0; for(auto &ch : A.I.play()->m_midiChannels) sounding += ch.activenotes.size();
         if(sounding) info.notes_at_seek = true;
         if(t < cur) info.backward = true;
         if(mi > 0 && mi + 2 < times.size()) info.interior = true;
         opn2_positionSeek(A.I.dev, t); A.d = 0;
-        opn2_positionRewind(B.I.dev); B.d = 0; B.tick_to(t);
+        // the reference is a fresh instance played linearly to t (every second time: the same instance rewound, which must be equivalent)
+        if(c.loop || (si & 1) == 0) { B.start(img, c.loop); B.d = 0; B.tick_to(t); }
+        else { opn2_positionRewind(B.I.dev); B.d = 0; B.tick_to(t); }
         info.seeks++; cur = t;
         double tellA = opn2_positionTell(A.I.dev);
         VCHECK(std::fabs(tellA - t) <= 1e-9 * (1 + t), "after seeking to %.9f the reported position is %.9f", t, tellA);
@@ -130,14 +139,22 @@ static void run(const Case &c, Info &info) {
     }
     // the events delivered afterwards: identical to the twin's and at the reference interpreter's song times
     A.rec.got.clear(); B.rec.got.clear(); A.rec.on = true; B.rec.on = true;
-    A.tick_to_end(); B.tick_to_end();
-    VCHECK(A.rec.got.size() == B.rec.got.size(), "after the last seek (position %.6f) %zu events were delivered, linear playback delivers %zu", cur, A.rec.got.size(), B.rec.got.size());
+    if(c.loop) {
+        // play on to the loop end and through two more rounds of the loop body (bounded: a short body inside a long song would otherwise repeat for ever)
+        double ls = opn2_loopStartTime(A.I.dev), le = opn2_loopEndTime(A.I.dev); if(le < 0) { ls = 0; le = times.empty() ? 0.0 : times.back(); } if(ls < 0) ls = 0;
+        double here = cur < 0 ? 0.0 : cur; double span = (le > here ? le - here : 0.0) + 2.2 * (le > ls ? le - ls : 0.0) + 0.01;
+        A.tick_for(span); B.tick_for(span);
+    } else { A.tick_to_end(); B.tick_to_end(); }
+    if(A.rec.got.size() != B.rec.got.size()) {
+        std::string la, lb; for(size_t i = 0; i < A.rec.got.size() && i < 14; i++) la += fmt(" %02X/%02X@%.6f", A.rec.got[i].type, A.rec.got[i].sub, A.rec.got[i].tell); for(size_t i = 0; i < B.rec.got.size() && i < 14; i++) lb += fmt(" %02X/%02X@%.6f", B.rec.got[i].type, B.rec.got[i].sub, B.rec.got[i].tell);
+        VCHECK(false, "after the last seek (position %.6f) %zu events were delivered, linear playback delivers %zu; seek:%s | linear:%s", cur, A.rec.got.size(), B.rec.got.size(), la.c_str(), lb.c_str());
+    }
     for(size_t i = 0; i < A.rec.got.size(); i++) {
         const Ev &x = A.rec.got[i], &y = B.rec.got[i];
         VCHECK(x.type == y.type && x.sub == y.sub && x.ch == y.ch && x.data == y.data, "event #%zu after the seek differs: %s vs linear %s", i, show(x).c_str(), show(y).c_str());
-        VCHECK(std::fabs(x.tell - y.tell) <= 1e-7 * (1 + y.tell), "event #%zu after the seek is delivered at song time %.9f, linear playback at %.9f", i, x.tell, y.tell);
+        VCHECK(std::fabs(x.tell - y.tell) <= (c.loop ? 2 * G : 0.0) + 1e-7 * (1 + y.tell), "event #%zu after the seek is delivered at song time %.9f, linear playback at %.9f", i, x.tell, y.tell); // after a loop wrap the reported time depends on the tick phase, up to the granularity
     }
-    if(info.seeks > 0) {
+    if(info.seeks > 0 && !c.loop) {
         // reference: exactly the file events with time > cur, each at its own time
         std::vector<RE> exp; for(const RE &r : ref) if(r.tau > cur) exp.push_back(r);
         std::vector<Ev> got; for(const Ev &e : A.rec.got) if(!(e.type == 0xFF && e.sub == 0x01 && e.data.empty())) got.push_back(e); // minus the synthetic song-begin callback
@@ -167,6 +184,12 @@ int main(int argc, char **argv) {
         // keep songs short in time so linear re-play of the twin stays cheap: no giant deltas
         for(STrack &t : cs.song.tracks) for(SEv &e : t.ev) if(e.delta > 30000) e.delta = 1 + e.delta % 3000;
         smf_ticks(cs.song);
+        cs.loop = *rc::gen::element(0, 0, 1);
+        if(cs.loop && *rng<int>(0, 1)) { // explicit loop markers in track 0 (valid only when the start tick is before the end tick)
+            STrack &t0 = cs.song.tracks[0]; size_t n = t0.ev.size();
+            if(n >= 3) { size_t i1 = (size_t)*rng<int>(0, (int)n - 2), i2 = (size_t)*rng<int>((int)i1 + 1, (int)n - 1);
+                auto marker = [](const char *x) { SEv e; e.status = 0xFF; e.meta = 0x06; e.delta = 0; e.data.assign(x, x + strlen(x)); return e; };
+                t0.ev.insert(t0.ev.begin() + (long)i2, marker("loopEnd")); t0.ev.insert(t0.ev.begin() + (long)i1, marker("loopStart")); smf_ticks(cs.song); } }
         cs.play_first_permille = *rc::gen::element(0, 0, 300, 600, 950, 1000);
         cs.targets = *rc::gen::resize(4, rc::gen::container<std::vector<int>>(rc::gen::weightedOneOf<int>({{10, rng<int>(0, 400)}, {1, rc::gen::just(-1)}, {1, rc::gen::just(-2)}})));
         if(cs.targets.empty()) cs.targets.push_back(*rng<int>(0, 400));
@@ -175,7 +198,7 @@ int main(int argc, char **argv) {
             Info info; run(cs, info);
             Stats &st = ctx().stats;
             st.note_case(s, info.interior && info.notes_at_seek);
-            st.label("seeks_judged", info.seeks); if(info.backward) st.label("backward_seek"); if(info.notes_at_seek) st.label("notes_sounding_at_seek"); if(info.interior) st.label("target_inside_song");
+            st.label("seeks_judged", info.seeks); if(info.backward) st.label("backward_seek"); if(info.notes_at_seek) st.label("notes_sounding_at_seek"); if(info.interior) st.label("target_inside_song"); if(cs.loop) st.label("looping_on");
         });
     });
     return finish();
